@@ -533,6 +533,54 @@ Definition installed (d : gdata) (t : table) : list (cid * (gdata * link)) := ma
 (* a dataset of the manager model as the translated functions see it *)
 Definition gdata_of (d : dataset) : gdata := mkgdata (d_own d) [] (d_der d).
 
+(* ---- round 6: WHICH links are in force (`self._links | self._inverse_links`), translated, at the model's types.
+   A ComponentLink object is the link together with the function it declares as its inverse (ComponentLink(..., inverse=g));
+   `==`/hash on these objects is structural here (the model names an object by its content), which reflects equality. *)
+Definition glink := (link * option fn)%type.
+Fixpoint zs_eqb (a b : list Z) : bool :=
+  match a, b with
+  | [], [] => true
+  | x :: a', y :: b' => (x =? y) && zs_eqb a' b'
+  | _, _ => false
+  end.
+Fixpoint cids_eqb (a b : list cid) : bool :=
+  match a, b with
+  | [], [] => true
+  | x :: a', y :: b' => cid_eqb x y && cids_eqb a' b'
+  | _, _ => false
+  end.
+Definition fn_eqb (f g : fn) : bool := (f_const f =? f_const g) && zs_eqb (f_coefs f) (f_coefs g).
+Definition link_seqb (a b : link) : bool :=
+  (l_id a =? l_id b) && cids_eqb (l_from a) (l_from b) && cid_eqb (l_to a) (l_to b) && fn_eqb (l_fn a) (l_fn b).
+Definition glink_eqb (a b : glink) : bool :=
+  link_seqb (fst a) (fst b) &&
+  match snd a, snd b with Some f, Some g => fn_eqb f g | None, None => true | _, _ => false end.
+(* link.inverse: ComponentLink([to], from[0], using=inverse, inverse=using) when an inverse function is declared *)
+Definition g_inverse (p : glink) : option glink :=
+  match inv_links (fst p) (snd p) with i :: _ => Some (i, Some (l_fn (fst p))) | [] => None end.
+(* the inverse function a derived-component link of dataset d declares: read off the stored `.inverse` object in d_dinv
+   (same link name, the two attributes swapped) *)
+Definition is_inverse_of (l i : link) : bool :=
+  match l_from l with
+  | [f] => cids_eqb (l_from i) [l_to l] && cid_eqb (l_to i) f && (l_id i =? l_id l)
+  | _ => false
+  end.
+Definition der_inverse_fn (d : dataset) (l : link) : option fn :=
+  match find (is_inverse_of l) (d_dinv d) with Some i => Some (l_fn i) | None => None end.
+(* Data.links as link objects: coordinate links (no inverse declared), then the links of the derived components *)
+Definition g_data_links (d : dataset) : list glink :=
+  map (fun l => (l, None)) (d_int d) ++ map (fun l => (l, der_inverse_fn d l)) (d_der d).
+(* an entry of _external_links that is not a LinkCollection is itself the link: its one sublink *)
+Definition g_entry_link (e : entry) : glink := hd (no_link, None) (e_links e).
+(* the translated `self._links | self._inverse_links` on a state of the manager model: data_collection = the member
+   datasets, _external_links = s_ext; the links it contains, as the model's links (the object's inverse function dropped) *)
+Definition g_links_in_force_objs (iterL : list glink -> list glink) (s : state) : list glink :=
+  lm_links_in_force glink entry dataset glink_eqb g_data_links e_coll e_links g_entry_link g_inverse iterL
+                    (Some (filter d_member (s_data s))) (s_ext s).
+Definition g_links_in_force (iterL : list glink -> list glink) (s : state) : list link :=
+  map fst (g_links_in_force_objs iterL s).
+Definition iterL_ok (iterL : list glink -> list glink) : Prop := forall s x, In x (iterL s) <-> In x s.
+
 Definition enc_event {D} (ev : event cid link D) : tree :=
   match ev with
   | EvUpdate _ _ _ => T 0 []
@@ -644,3 +692,32 @@ Fixpoint valid_history (s : state) (ops : list op) : Prop :=
   | [] => True
   | o :: r => valid_op s o /\ valid_history (fst (step s o)) r
   end.
+
+(* ---- round 6: the invariant that pairs d_dinv with d_der, the shape of plain entries, and what "the same derivations" means *)
+
+(* every stored inverse is the `.inverse` object of one of the dataset's derived-component links (same name, the two attributes
+   swapped), and no two stored inverses start from the same attribute (a derived attribute has one defining link) *)
+Definition dinv_paired (d : dataset) : Prop :=
+  (forall i, In i (d_dinv d) ->
+     exists l, In l (d_der d) /\ l_from l = [l_to i] /\ l_from i = [l_to l] /\ l_id i = l_id l) /\
+  (forall i i', In i (d_dinv d) -> In i' (d_dinv d) -> l_from i = l_from i' -> i = i').
+(* an entry that is not a LinkCollection is one ComponentLink *)
+Definition entry_shaped (e : entry) : Prop := e_coll e = false -> exists p, e_links e = [p].
+Definition links_paired (s : state) : Prop :=
+  (forall d, In d (s_data s) -> dinv_paired d) /\ (forall e, In e (s_ext s) -> entry_shaped e).
+Definition shaped_op (o : op) : Prop :=
+  match o with
+  | AddLink e => entry_shaped e
+  | SetLinks es => forall e, In e es -> entry_shaped e
+  | _ => True
+  end.
+
+(* table t holds the same derivations as table t0, up to the choice among links of equal merit: same keys, same depth
+   for every attribute, and every entry of t is a valid minimal derivation step over [links] *)
+Definition same_derivations (own : list cid) (links : list link) (t0 t : table) : Prop :=
+  (forall c, lookup c t0 <> None <-> lookup c t <> None) /\
+  (forall c, depth_of own t0 c = depth_of own t c) /\
+  (forall c k l, lookup c t = Some (k, l) ->
+     In l links /\ l_to l = c /\ ~ In c own /\
+     (Derivable own links c k /\ forall n, Derivable own links c n -> (k <= n)%nat) /\
+     forall f, In f (l_from l) -> exists df, depth_of own t f = Some df /\ (df < k)%nat).
